@@ -1,0 +1,211 @@
+//! Verification door: `http_forwarded_stream::into_forwarded` (plain-HTTP forwarding) on
+//! harness-provided stream parts (cfg(trusttunnel_verif) only).
+//!
+//! The harness plays both ends: the *client side* (the request body source, and a responder that
+//! records the response heads it is asked to send and hands out the body sink) and the *origin*
+//! (it reads the serialised request from the returned source and writes origin bytes into the
+//! returned sink, exactly as `SimplexPipe::exchange` would).
+
+use crate::http_codec::{
+    DroppingSink, PendingRequest, PendingRespond, RequestHeaders, RespondedStreamSink,
+    ResponseHeaders, Stream,
+};
+use crate::verif::pipe::{SinkIn, SourceIn, SourceOut, VSink, VSource};
+use crate::{datagram_pipe, http_forwarded_stream, log_utils, pipe};
+use async_trait::async_trait;
+use bytes::Bytes;
+use std::io;
+use std::io::ErrorKind;
+use std::net::{IpAddr, Ipv4Addr};
+
+#[derive(Debug, Clone, Copy, PartialEq, Eq)]
+pub enum VVersion {
+    Http11,
+    Http2,
+}
+
+impl VVersion {
+    fn to_http(self) -> http::Version {
+        match self {
+            VVersion::Http11 => http::Version::HTTP_11,
+            VVersion::Http2 => http::Version::HTTP_2,
+        }
+    }
+}
+
+/// A request head as a codec would deliver it
+#[derive(Debug, Clone)]
+pub struct VRequestHead {
+    pub method: String,
+    pub uri: String,
+    pub version: VVersion,
+    pub headers: Vec<(String, Vec<u8>)>,
+}
+
+/// A response head as the forwarding layer hands it to the client-side codec
+#[derive(Debug, Clone)]
+pub struct VResponseHead {
+    pub status: u16,
+    pub version: VVersion,
+    /// names as `http::HeaderMap` yields them (lower case), in iteration order
+    pub headers: Vec<(String, Vec<u8>)>,
+}
+
+/// Public mirror of `http_codec::PendingRespond` + `RespondedStreamSink::into_pipe_sink`
+pub trait VRespond: Send {
+    fn send_intermediate_response(&self, head: VResponseHead) -> io::Result<()>;
+    fn send_response(self: Box<Self>, head: VResponseHead, eof: bool)
+        -> io::Result<Box<dyn VSink>>;
+}
+
+fn view(r: &ResponseHeaders) -> VResponseHead {
+    VResponseHead {
+        status: r.status.as_u16(),
+        version: if r.version == http::Version::HTTP_2 {
+            VVersion::Http2
+        } else {
+            VVersion::Http11
+        },
+        headers: r
+            .headers
+            .iter()
+            .map(|(n, v)| (n.as_str().to_string(), v.as_bytes().to_vec()))
+            .collect(),
+    }
+}
+
+struct DoorRequest {
+    parts: RequestHeaders,
+    body: Box<dyn VSource>,
+}
+
+struct DoorRespond(Box<dyn VRespond>);
+struct DoorResponded(Box<dyn VSink>);
+struct DoorStream {
+    request: DoorRequest,
+    respond: DoorRespond,
+}
+
+impl Stream for DoorStream {
+    fn id(&self) -> log_utils::IdChain<u64> {
+        log_utils::IdChain::empty()
+    }
+
+    fn request(&self) -> &dyn PendingRequest {
+        &self.request
+    }
+
+    fn split(self: Box<Self>) -> (Box<dyn PendingRequest>, Box<dyn PendingRespond>) {
+        (Box::new(self.request), Box::new(self.respond))
+    }
+}
+
+impl PendingRequest for DoorRequest {
+    fn id(&self) -> log_utils::IdChain<u64> {
+        log_utils::IdChain::empty()
+    }
+
+    fn request(&self) -> &RequestHeaders {
+        &self.parts
+    }
+
+    fn client_address(&self) -> io::Result<IpAddr> {
+        Ok(IpAddr::V4(Ipv4Addr::new(198, 51, 100, 23)))
+    }
+
+    fn finalize(self: Box<Self>) -> Box<dyn pipe::Source> {
+        Box::new(SourceIn(self.body))
+    }
+}
+
+impl PendingRespond for DoorRespond {
+    fn id(&self) -> log_utils::IdChain<u64> {
+        log_utils::IdChain::empty()
+    }
+
+    fn send_intermediate_response(&self, response: ResponseHeaders) -> io::Result<()> {
+        self.0.send_intermediate_response(view(&response))
+    }
+
+    fn send_response(
+        self: Box<Self>,
+        response: ResponseHeaders,
+        eof: bool,
+    ) -> io::Result<Box<dyn RespondedStreamSink>> {
+        let sink = self.0.send_response(view(&response), eof)?;
+        Ok(Box::new(DoorResponded(sink)))
+    }
+}
+
+impl RespondedStreamSink for DoorResponded {
+    fn into_pipe_sink(self: Box<Self>) -> Box<dyn pipe::Sink> {
+        Box::new(SinkIn(self.0))
+    }
+
+    fn into_datagram_sink(self: Box<Self>) -> Box<dyn DroppingSink> {
+        self
+    }
+}
+
+impl DroppingSink for DoorResponded {
+    fn write(&mut self, _data: Bytes) -> io::Result<datagram_pipe::SendStatus> {
+        Err(io::Error::new(ErrorKind::Other, "not a datagram stream"))
+    }
+}
+
+/// The real `ForwardedStreamSink`, with a view of its state
+pub struct ForwardedSink(Box<dyn pipe::Sink>);
+
+impl ForwardedSink {
+    /// JSON view: `{"ss":..,"buf":..,"blen":..,"sent":..,"rem":..,"last":..,"fake":..}`
+    pub fn state(&self) -> String {
+        self.0.verif_state().unwrap_or_default()
+    }
+}
+
+#[async_trait]
+impl VSink for ForwardedSink {
+    fn write(&mut self, data: Bytes) -> io::Result<Bytes> {
+        self.0.write(data)
+    }
+
+    fn eof(&mut self) -> io::Result<()> {
+        self.0.eof()
+    }
+
+    async fn wait_writable(&mut self) -> io::Result<()> {
+        self.0.wait_writable().await
+    }
+
+    async fn flush(&mut self) -> io::Result<()> {
+        self.0.flush().await
+    }
+}
+
+/// `http_forwarded_stream::into_forwarded` on a stream made of the given parts. Returns the source
+/// the Outgoing pipe reads (serialised request, then the body) and the sink the Incoming pipe
+/// writes the origin's bytes into.
+pub fn into_forwarded(
+    head: VRequestHead,
+    body: Box<dyn VSource>,
+    respond: Box<dyn VRespond>,
+) -> io::Result<(Box<dyn VSource>, ForwardedSink)> {
+    let mut b = http::Request::builder()
+        .method(head.method.as_str())
+        .uri(head.uri.as_str())
+        .version(head.version.to_http());
+    for (n, v) in &head.headers {
+        b = b.header(n.as_str(), v.as_slice());
+    }
+    let parts = b
+        .body(())
+        .map_err(|e| io::Error::new(ErrorKind::InvalidInput, format!("request head: {}", e)))?
+        .into_parts()
+        .0;
+    let stream = DoorStream {
+        request: DoorRequest { parts, body },
+        respond: DoorRespond(respond),
+    };
+    let (source, sink) = http_forwarded_stream::into_forwarded(Box::new(stream))?;
+    Ok((Box::new(SourceOut(source)), ForwardedSink(sink)))
+}
